@@ -17,7 +17,7 @@ from sim import outcome, rng, seams, shrink, workload
 
 ID = "C13"
 MODULE = "checks.c13_factories"
-SIG_CLASSES = ["plain", "name", "kwonly", "varkw", "object", "partial", "builtin", "nddefault", "posonly-name", "varpos-signature", "wraps-plain", "wraps-name", "lru-name"]
+SIG_CLASSES = ["plain", "name", "kwonly", "varkw", "object", "partial", "builtin", "nddefault", "posonly-name", "varpos-signature", "wraps-plain", "wraps-name", "lru-name", "varargs"]
 FAULTS = ["raise", "raise-typeerror", "type-list", "type-none", "type-scalar", "type-duck", "type-memoryview", "type-npscalar", "shape-extra", "shape-transposed", "shape-broadcast"]
 
 
@@ -170,6 +170,11 @@ def make_factory(sigclass, arr, pos, log, fault=None):
             record((shape,), {"name": name, "extra": extra})
             return produce(shape)
         return functools.partial(g, extra=7), {"name"}
+    if sigclass == "varargs":
+        def f(*args):  # a generic forwarding wrapper: must receive the shape as ONE tuple argument like every other factory
+            record(tuple(args), {})
+            return produce(args[0] if len(args) == 1 and isinstance(args[0], tuple) else tuple(args))
+        return f, set()
     if sigclass == "posonly-name":
         def f(shape, name=None, /):  # merely *named* like an optional keyword: cannot be passed by keyword, so nothing is declared
             record((shape,), {} if name is None else {"name": name})
@@ -356,6 +361,9 @@ def exec_case(case, cfg):
                 viol("graph-not-text", f"graph=True returned {type(result).__name__}")
             continue
         for c in calls:
+            if len(c["args"]) != 1:
+                viol("shape-argument-type", f"factory {c['pos']} received {len(c['args'])} positional arguments {c['args']!r} instead of one shape tuple")
+                continue
             shape = c["args"][0]
             exp_shape = tuple(arrays[c["pos"]].shape)
             if not (isinstance(shape, tuple) and all(type(s) is int for s in shape)):
